@@ -32,6 +32,7 @@ pub const SPEC: PropSpec = PropSpec {
 #[derive(Default)]
 pub struct Local {
     ok: u64,
+    scale_docs: u64,
     nested: u64,
     empty_span: u64,
     failed: u64,
@@ -550,6 +551,32 @@ fn run(ctx: &mut Ctx) {
             }
         }
     }
+    // scale: long names / values / texts, deep nesting, many siblings; long pieces
+    let max = if ctx.scale_pct < 100 { 64 } else { t.pick(1024, 8192) };
+    for (kind, _n, d) in crate::gen::scale_docs(ctx.shard, ctx.nshards, ctx.seed, max) {
+        // the property is about well-formed documents: not the kinds with a wrong end tag / an open DOCTYPE
+        if kind == 10 || kind == 12 {
+            continue;
+        }
+        loc.scale_docs += 1;
+        let cfg = cfgs[r.below(cfgs.len())];
+        if !run_case(ctx, &mut loc, &d, cfg, SrcKind::Slice, &[], &[]) {
+            return flush(ctx, &loc);
+        }
+        for piece in [32usize, 33, 128, 1024] {
+            if piece >= d.len() {
+                continue;
+            }
+            let kind = if piece == 33 { SrcKind::Async } else { SrcKind::Buffered };
+            if !run_case(ctx, &mut loc, &d, cfgs[r.below(cfgs.len())], kind, &cuts_for_piece(d.len(), piece, 0), &[0, 1]) {
+                return flush(ctx, &loc);
+            }
+        }
+        let cuts = crate::sources::big_random_cuts(&mut r, d.len(), 0);
+        if !run_case(ctx, &mut loc, &d, cfg, SrcKind::Buffered, &cuts, &[]) {
+            return flush(ctx, &loc);
+        }
+    }
     let n = ctx.scaled(t.pick(120_000, 15_000_000)) / ctx.nshards as u64;
     let opts = DocOpts {
         max_depth: 6,
@@ -581,6 +608,7 @@ fn run(ctx: &mut Ctx) {
 
 fn flush(ctx: &mut Ctx, loc: &Local) {
     ctx.add("skips.ok", loc.ok);
+    ctx.add("scale_documents", loc.scale_docs);
     ctx.add("skips.same_name_nested", loc.nested);
     ctx.add("skips.empty_span_expanded", loc.empty_span);
     ctx.add("skips.failed", loc.failed);
